@@ -72,6 +72,7 @@ var longPick int
 type isoShape struct {
 	depth, maxKids int
 	long, huge     bool
+	hugeIdx        int // which of the boundary sizes (the job walks through them by case number)
 	wide, manyDirs int
 }
 
@@ -149,8 +150,7 @@ func genIsoTree(env *Env, sh isoShape, name string) *WNode {
 		// sizes around the 32-bit extent length and the 0xFFFFF800 part size, exactly and +-1, and a few GiB more
 		const part = 0xFFFFF800
 		sizes := []int64{part, part - 1, part + 1, 0xFFFFFFFF, 1 << 32, 1<<32 + 1, 2 * part, 2*part + 1, 1<<32 + 3000 + env.Rnd.Int63n(1<<32), 9<<30 + 12345}
-		size := sizes[hugePick%len(sizes)]
-		hugePick++
+		size := sizes[sh.hugeIdx%len(sizes)]
 		root.Kids = append(root.Kids, &WNode{Name: "huge.bin", MTime: 1234567890,
 			Content: Content{{Kind: 'g', N: 3000, A: 7}, {Kind: 'z', N: int(size - 3000 - 1000)}, {Kind: 'g', N: 1000, A: 9}}})
 		if env.Rnd.Intn(2) == 0 {
@@ -536,6 +536,10 @@ func runIso(env *Env) error {
 			sh.wide = 300
 		}
 		sh.huge = (i%10 == 4 && i < 100) || (env.Tier == "thorough" && i%30 == 8)
+		sh.hugeIdx = i / 10
+		if sh.huge { // (an over-long name would have the image refused before the big file is looked at)
+			sh.long = false
+		}
 		ps3 := env.Rnd.Intn(3) == 0
 		rootName := []string{"img", "My Game", "game-dir_1", "日本", "a?b", strings.Repeat("v", 40)}[env.Rnd.Intn(6)]
 		tree := genIsoTree(env, sh, rootName)
@@ -556,6 +560,9 @@ func runIso(env *Env) error {
 		titleID := ""
 		if ps3 {
 			titleID = []string{"BLES01234", "BCUS98111", "NPEB00001", "ABCD", "ABCDE", strings.Repeat("T", 31)}[env.Rnd.Intn(6)]
+			if sh.huge { // (a refused title would use up this case's boundary size)
+				titleID = "BLES01234"
+			}
 			if env.Rnd.Intn(5) == 0 {
 				titleID = []string{"", "ABC", strings.Repeat("T", 32), strings.Repeat("T", 32), strings.Repeat("U", 33), strings.Repeat("V", 64)}[env.Rnd.Intn(6)] // must be refused
 			}
